@@ -266,19 +266,19 @@ class CoordinateComponent(Component):
             if isinstance(view, np.ndarray):
                 return self._calculate()[view]
 
-            # If the view is a tuple or list of integer arrays, one for each
-            # dimension, we should actually just convert these straight to
-            # world coordinates since the indices of the pixel coordinates are
-            # the pixel coordinates themselves. Any other combination of
-            # arrays (fewer than the number of dimensions, boolean arrays,
-            # arrays mixed with slices) follows Numpy's indexing rules, so we
-            # apply it to the full array.
+            # If the view is a tuple or list of arrays, one for each dimension,
+            # we should actually just convert these straight to world
+            # coordinates since the indices of the pixel coordinates are the
+            # pixel coordinates themselves (this is also how pixel positions
+            # that are not integers, or that lie outside the array, are
+            # converted). Any other combination of arrays (fewer than the
+            # number of dimensions, boolean arrays, arrays mixed with slices)
+            # follows Numpy's indexing rules, so we apply it to the full array.
             if isinstance(view, (tuple, list)) and any(isinstance(v, np.ndarray) for v in view):
                 if (len(view) == self._data.ndim and
-                        all(isinstance(v, np.ndarray) and v.dtype.kind in 'iu' for v in view)):
+                        all(isinstance(v, np.ndarray) and v.dtype.kind != 'b' for v in view)):
                     axis = self._data.ndim - 1 - self.axis
-                    index = [np.where(v < 0, v + n, v) for v, n in zip(view, self._data.shape)]
-                    return pixel2world_single_axis(self._data.coords, *index[::-1],
+                    return pixel2world_single_axis(self._data.coords, *view[::-1],
                                                    world_axis=axis)
                 else:
                     return self._calculate()[tuple(view)]
